@@ -7,6 +7,7 @@ def dispatchHelpers (line : String) : String :=
   | "headers" :: args => handleHeaders args
   | "skel" :: args => handleSkel args
   | "fmod" :: args => handleFmod args
+  | "shared" :: args => handleShared args
   | _ => "bad-op"
 
 partial def loopHelpers (h : IO.FS.Stream) (out : IO.FS.Stream) : IO Unit := do
